@@ -370,21 +370,32 @@ def single_sign(ctx, config, U, amt):
 
 
 def symbol_resolves(ctx, config, w):
-    """`the symbol resolves to the stored unit`: the first unit in iteration
-    order carrying a unit's symbol is that unit (lookup model of C09 evaluated on
-    the extracted tables of every type)."""
+    """`the symbol resolves to the stored unit`: Quantity::unit_from_symbol — its gated summary, the type's own
+    bodies where it overrides a lookup — evaluated by the model interpreter on the type's table with the symbol
+    every unit displays must return that unit (C09's lookup evaluation, for the keys a displayed value produces)."""
+    from . import conc, rules_c09
+    generic = rules_c09.lookup_summaries(ctx, config, w.U, tag="/display")
     n = 0
     for q in w.qtypes:
         if q.kind == "dimless":
             continue
-        first = {}
+        ov = {k: v for k, v in G.type_overrides(w.U, q).items() if k in rules_c09.LK}
+        lk = rules_c09.lookup_summaries(ctx, config, w.U, overrides=ov, tag="/display/" + q.path) if ov else generic
+        ent = lk.get("Quantity::unit_from_symbol")
+        if ent is None:
+            ctx.fail("symbol-resolves", "%s/%s" % (config, q.path), "Quantity::unit_from_symbol cannot be decided on the symbol partition (see lookup-key-use)", q.span)
+            continue
+        kind, outs, b, ev = ent
         for v in q.variants_const:
-            first.setdefault(q.tables["symbol"][v], v)
-        for v in q.variants_const:
+            sym = q.tables["symbol"][v][1]
             n += 1
-            ctx.ob("symbol-resolves", "%s/%s/%s" % (config, q.path, v), first[q.tables["symbol"][v]] == v,
-                   "a value in %s displays with symbol %r, which resolves to %s" % (v, q.tables["symbol"][v][1], first[q.tables["symbol"][v]]), q.span,
-                   nontrivial=False)
+            try:
+                r = conc.Conc(w.U, q, ev).pick(outs, {0: sym})
+                got = r[1] if r is not None else None
+            except (conc.CannotEvaluate, conc.ModelPanic, T.Unsupported) as x:
+                got = "cannot evaluate: %s" % x
+            ctx.ob("symbol-resolves", "%s/%s/%s" % (config, q.path, v), got == v,
+                   "a value in %s displays with symbol %r, which resolves to %s" % (v, sym, got), b["span"], nontrivial=False)
     return n
 
 
